@@ -253,6 +253,8 @@ Ctx == [
   case_label       |-> C("none", "string", FALSE, FALSE, StringForms \cup {"byte_array"}),
   const_untyped    |-> C("none", "string", FALSE, FALSE, StringForms),   \* const k = lit; the USE of k in a string position
   const_typed      |-> C("none", "string", FALSE, FALSE, StringForms),   \* const k T = lit; the USE of k
+  conv_named_const |-> C("none", "string", FALSE, FALSE, {"string", "concat"}),   \* type E string; const k E = lit; the USE string(k):
+                                                                           \* a *ast.CallExpr (conversion) with a constant value of type string
   array_len_lit    |-> C("none", "untyped", FALSE, TRUE, StringForms \cup ArrayForms),    \* [len(lit)]byte
   array_len_uconst |-> C("none", "untyped", FALSE, TRUE, StringForms),   \* const k = lit; [len(k)]byte
   array_len_tconst |-> C("none", "string", FALSE, TRUE, StringForms),    \* const k T = lit; [len(k)]byte
